@@ -138,6 +138,14 @@ pub fn child_run(args: &[String]) -> i32 {
                 if client {
                     let _ = writeln!(acks, "A {i}");
                 }
+                if fault && shim::COUNT.load(std::sync::atomic::Ordering::SeqCst) > k {
+                    // The injected failure happened inside this operation and the operation still
+                    // reported success (the error was retried, irrelevant - or swallowed).  Die right
+                    // here, losing unsynced bytes, before a later successful sync can mask it: what
+                    // was acknowledged must be durable NOW.
+                    let _ = writeln!(acks, "S {i}");
+                    crash_lose_all();
+                }
             }
             Ok(Err(f)) => {
                 let _ = writeln!(acks, "E {i} {}", f.signature);
@@ -493,7 +501,9 @@ impl CrashEnum {
             }
         }
         if fault {
-            if other.iter().any(|l| l.starts_with("E ")) {
+            if other.iter().any(|l| l.starts_with("S ")) {
+                o.label("fault-inside-an-operation-that-reported-success");
+            } else if other.iter().any(|l| l.starts_with("E ") || l.starts_with("X open")) {
                 o.label("fault-surfaced-as-error");
             } else if other.iter().any(|l| l.starts_with("P ")) {
                 o.label("fault-caused-panic");
@@ -631,14 +641,19 @@ impl Part for CrashEnum {
             }
             // 3. enumerate
             for (pi, k) in points.iter().enumerate() {
+                // Thorough: every mode at every point.  Quick: the extra modes are drawn from a hash
+                // of (history, call) so that they are not aliased with the position of a call in
+                // the write / fdatasync rhythm of the trace.
+                let _ = pi;
+                let r = vcore::mix(seed ^ hi.wrapping_mul(0x9e37_79b9) ^ ((*k as u64) << 20) ^ 0x5eed);
                 let mut modes = vec![Mode::A, Mode::LoseAll];
-                if pi % 2 == 0 {
+                if ctx.tier == Tier::Thorough || r % 2 == 0 {
                     modes.push(Mode::Torn);
                 }
-                if pi % 4 == 1 {
+                if ctx.tier == Tier::Thorough || (r >> 8) % 4 == 1 {
                     modes.push(Mode::Eio);
                 }
-                if pi % 4 == 3 {
+                if ctx.tier == Tier::Thorough || (r >> 8) % 4 == 3 {
                     modes.push(Mode::Enospc);
                 }
                 for mode in modes {
